@@ -218,7 +218,7 @@ class FCtx(symx.Ctx):
     """Ctx whose slow queries go to the subprocess portfolio (z3-new + cvc5)."""
     fast_ms = 1500
     pinned = None
-    slow_s = 150
+    slow_s = 400
     log = []
 
     def get_model(self):
